@@ -650,6 +650,33 @@ def c17_sessions(u, groups, rng, tier):
                  {'FRUGAL_MAX_INLINE_DEPTH': '257', 'FRUGAL_MAX_INLINE_IL_SIZE': '257'},
                  {'FRUGAL_MAX_INLINE_DEPTH': '2', 'FRUGAL_MAX_INLINE_IL_SIZE': '9223372036854775807'},
                  {'FRUGAL_MAX_INLINE_DEPTH': '4096'}, {'FRUGAL_MAX_INLINE_DEPTH': '100000', 'FRUGAL_MAX_INLINE_IL_SIZE': '100000'}]
+    # generated valid values (valid = accepted by the model of parseOrDefault, coq/EnvParse.v, which the judge
+    # re-checks on the environment the child reports): every base spelling of strconv.ParseUint(s, 0, 64),
+    # underscores between digits and after the prefix, values at the minimum + 1, at 2^31, 2^32 and 2^63 - 1
+    def env_numeral(r, minimum):
+        choice = r.below(6)
+        if choice == 0: v = minimum + 1
+        elif choice == 1: v = (1 << 63) - 1
+        elif choice == 2: v = r.pick([1 << 31, (1 << 31) - 1, 1 << 32, (1 << 32) + 1, 1 << 62])
+        else: v = max(minimum + 1, r.below(1 << (2 + r.below(61))) + minimum + 1)
+        v = min(v, (1 << 63) - 1)
+        form = r.below(7)
+        pre, digs = [('', '%d' % v), ('0x', '%x' % v), ('0X', ('%x' % v).upper()), ('0b', bin(v)[2:]), ('0o', '%o' % v),
+                     ('0O', '%o' % v), ('0', '%o' % v)][form]
+        if form in (1, 2) and r.below(2): digs = ''.join(c.upper() if r.below(2) else c.lower() for c in digs)
+        if r.below(3) == 0:
+            out = digs[0]
+            for c in digs[1:]:
+                out += ('_' if r.below(4) == 0 else '') + c
+            digs = out
+            if pre and r.below(2): digs = '_' + digs
+        return pre + digs
+    rg = rng.fork('envgen')
+    for _ in range(10 if tier == 'quick' else 120):
+        e = {}
+        if rg.below(4): e['FRUGAL_MAX_INLINE_DEPTH'] = env_numeral(rg, 1)
+        if rg.below(4): e['FRUGAL_MAX_INLINE_IL_SIZE'] = env_numeral(rg, 256)
+        envs_pool.append(e or None)
     legacy = ['Pretouch', 'NoJIT', 'SetMaxInlineDepth', 'SetMaxInlineILSize', 'GetStats', 'WithOptions']
     bad = groups.get('invalid', [])[:30] + groups.get('poison', [])
     sessions, envs = [], []
